@@ -1,8 +1,8 @@
 """C02 - tags are the union over all matching rules; tag-only rules never categorise.
 
-Exhaustive: every ordered sequence of <= K distinct blocks over a 13-block .rules alphabet (static and
+Exhaustive: every ordered sequence of <= K distinct blocks over a 14-block .rules alphabet (static and
 dynamic tags; tag-only rules that are more specific than the categorising ones) in BOTH rule modes, and
-every sequence of <= K legacy CSV rows with pipe-separated tags; each file x 72 transactions, through
+every sequence of <= K legacy CSV rows with pipe-separated tags; each file x 96 transactions, through
 MerchantEngine.match and the get_all_rules/normalize_merchant path.
 """
 import functools
@@ -14,10 +14,10 @@ from mc.checks import rules_common as R
 
 PROPERTY = "C02"
 LEVEL = "exploration"
-RULE = ("cases = every ordered sequence of 1..K distinct blocks (K=3 quick, 4 thorough) over 13 .rules blocks "
+RULE = ("cases = every ordered sequence of 1..K distinct blocks (K=3 quick, 4 thorough) over 14 .rules blocks "
         "(6 categorising with static / mixed-case / {field.x} / {source} / {extract()} tags, 7 tag-only incl. one sharing its match text with a categorising rule at low priority, one with case-significant dynamic tag expressions, one more specific than "
         "every categorising rule, one with an unevaluable {field.nope} and an empty {} tag) x 2 rule modes, plus every sequence of 1..K "
-        "rows over 6 legacy CSV rows with a|B tags; each file on 72 transactions via engine.match and normalize_merchant. "
+        "rows over 6 legacy CSV rows with a|B tags; each file on 96 transactions via engine.match and normalize_merchant. "
         "non-trivial = file where some transaction is matched by >=2 tag-bearing rules or by a tag-only rule; files distinct by construction")
 ASSUMPTIONS = ["truth of a .rules condition comes from the real evaluator on the one-rule file (C04 judges meaning)",
                "value of a {expression} tag is taken from evaluate_transaction on that expression alone; dropped when falsy, blank or an expression error",
@@ -53,7 +53,7 @@ CSVROWS = [
     {"pattern": r"\d+", "merchant": "Numbered", "category": "Numbered", "subcategory": "", "tags": "a|num"},
 ]
 MODES = ["first_match", "most_specific"]
-TXNS = R.all_txns()
+TXNS = R.all_txns(ctxs=R.CTX + [R.CTX_WS])
 
 
 def bounds(tier):
